@@ -120,4 +120,25 @@ theorem ecs_hit_clone_arg_src : ecs_hit_clone_arg = "item.msg" := by decide
 theorem simple_hit_calls_src : simple_hit_calls = "msg.SetReply,dns.Copy,dns.Copy,dns.Copy" := by decide
 theorem hashprefix_hit_return_src : hashprefix_hit_return = "f.filteredResult(req, item.matched, fam)" := by decide
 
+/-! ### Shared long-lived messages are created as copies and never handed out (round 3)
+
+What the caches keep is a clone / copy of the response, not the response itself: the response goes on to
+the client and is released by the server after it was written (`cache_keeps_response_counterexample`:
+what a cache that keeps the response itself serves later).  A DDR response is built from copies of the
+record templates of the server group; the device ID of the client is written into the copy. -/
+theorem ecs_set_clone_src : ecs_set_clone = "mw.cloner.Clone(resp)" := by decide
+theorem ecs_set_item_arg_src : ecs_set_item_arg = "cachedResp, cr.host" := by decide
+theorem simple_set_item_src : simple_set_item = "cacheItem{ msg: msg.Copy(), when: time.Now(), }" := by decide
+theorem ddr_device_copy_src : ddr_device_copy = "dns.Copy(rr).(*dns.SVCB)" := by decide
+theorem ddr_public_copy_src : ddr_public_copy = "dns.Copy(rr).(*dns.SVCB)" := by decide
+theorem ddr_writes_src : ddr_writes = "ri.Messages.NewResp,dns.Copy,append,dns.Copy,append" := by decide
+
+/-! ### The pooled buffer of the human-ID normaliser
+
+The buffer is emptied before it is used (`buf.Reset` is the first call on it after `Get`) and the result
+is a copy of its bytes (`string(b)`), so neither the content nor the storage of one client's identifier
+reaches another's. -/
+theorem humanid_buf_calls_src : humanid_buf_calls = "p.pool.Get,p.pool.Put,buf.Reset,n.result" := by decide
+theorem humanid_result_copy_src : humanid_result_copy = "string(b)" := by decide
+
 end Agd.Tie.C07
